@@ -471,6 +471,94 @@ Section HeapProofs.
       destruct (i =? 0)%nat; [exact Hgoal|].
       destruct (i <? length l)%nat eqn:E3; [exact Hgoal|lia].
   Qed.
+
+  (** ** PriorityQueue.Push with a size bound: indexOfLast *)
+  (** an element that no leaf of the heap is ordered after is a maximum of the
+      whole heap (every element has a leaf below it) *)
+  Lemma heap_leaf_max : forall l m, heap_ok l ->
+      (forall k y, (length l / 2 <= k)%nat -> nth_error l k = Some y -> less m y = false) ->
+      forall k y, nth_error l k = Some y -> less m y = false.
+  Proof.
+    intros l m Hh Hleaf k. remember (length l - k)%nat as d eqn:Ed. revert k Ed.
+    induction d as [d IH] using lt_wf_ind. intros k Ed y Hy.
+    assert (Hk : (k < length l)%nat) by (eapply nth_error_lt; eauto).
+    destruct (Nat.le_gt_cases (length l / 2) k) as [Hge|Hlt]; [eapply Hleaf; eauto|].
+    assert (Hc : (2 * k + 1 < length l)%nat) by lia.
+    destruct (nth_error_in_range l (2 * k + 1) Hc) as [z Hz].
+    assert (Hmz : less m z = false).
+    { eapply (IH (length l - (2 * k + 1))%nat); [lia|reflexivity|exact Hz]. }
+    assert (Hzy : less z y = false).
+    { eapply (Hh (2 * k + 1)%nat); [lia| |exact Hz].
+      replace ((2 * k + 1 - 1) / 2)%nat with k by lia. exact Hy. }
+    destruct SW as (_ & _ & Hnt). eapply Hnt; eauto.
+  Qed.
+
+  (** the scan keeps in [last] the first element of the scanned range that no
+      element of the range is ordered after *)
+  Lemma iol_scan_spec : forall l steps last i lo,
+      (lo <= last < i)%nat -> (i + steps = length l)%nat ->
+      (forall k m y, (lo <= k < i)%nat -> nth_error l last = Some m -> nth_error l k = Some y -> less m y = false) ->
+      (lo <= iol_scan less l last i steps < length l)%nat
+      /\ (forall k m y, (lo <= k < length l)%nat -> nth_error l (iol_scan less l last i steps) = Some m ->
+                        nth_error l k = Some y -> less m y = false).
+  Proof.
+    intros l steps. induction steps as [|s IH]; intros last i lo Hr Hn Hinv; cbn [iol_scan].
+    - split; [lia|]. intros k m y Hk. apply Hinv. lia.
+    - apply IH; [destruct (lessi less l last i); lia | lia |].
+      intros k m y Hk Hm Hy. destruct (lessi less l last i) eqn:E.
+      + apply lessi_true in E. destruct E as (vl & vi & Hvl & Hvi & Hlt).
+        rewrite Hvi in Hm. inversion Hm; subst m.
+        destruct (Nat.eq_dec k i) as [->|Hki].
+        * rewrite Hvi in Hy. inversion Hy; subst. apply SW.
+        * assert (Hvy : less vl y = false) by (eapply (Hinv k); eauto; lia).
+          destruct (less vi y) eqn:E2; auto.
+          destruct SW as (_ & Ht & _). rewrite <- Hvy. symmetry. eapply Ht; eauto.
+      + destruct (Nat.eq_dec k i) as [->|Hki].
+        * eapply lessi_false; eauto.
+        * eapply (Hinv k); eauto. lia.
+  Qed.
+
+  (** indexOfLast() is a valid index and no element of the heap is ordered after
+      the item it designates *)
+  Lemma index_of_last_spec : forall l, heap_ok l -> l <> [] ->
+      (index_of_last less l < length l)%nat
+      /\ (forall m, nth_error l (index_of_last less l) = Some m -> forall y, In y l -> less m y = false).
+  Proof.
+    intros l Hh Hne. unfold index_of_last.
+    assert (Hlen : (0 < length l)%nat) by (destruct l; [congruence|cbn; lia]).
+    destruct (iol_scan_spec l (length l - S (length l / 2)) (length l / 2) (S (length l / 2)) (length l / 2))
+      as [Hr Hmax]; [lia | lia | |].
+    { intros k m y Hk Hm Hy. assert (k = (length l / 2)%nat) by lia. subst k.
+      rewrite Hm in Hy. inversion Hy; subst. apply SW. }
+    split; [lia|]. intros m Hm y Hy.
+    apply In_nth_error in Hy. destruct Hy as [k Hk].
+    eapply (heap_leaf_max l m Hh); [|exact Hk].
+    intros k' y' Hk' Hy'. eapply (Hmax k'); eauto.
+    split; [exact Hk'|]. eapply nth_error_lt; eauto.
+  Qed.
+
+  (** PriorityQueue.Push: the heap invariant is kept; below the bound (or without
+      one) exactly the pushed element is added; at the bound one element [y] is
+      dropped and nothing in the queue (the pushed element included) is ordered
+      after [y] *)
+  Lemma pq_push_spec : forall d l x, heap_ok l ->
+      exists l', pq_push less d l x = Ok l' /\ heap_ok l'
+        /\ ((d = -1 \/ Z.of_nat (length l) < d)%Z -> Permutation (x :: l) l')
+        /\ ((d <> -1 /\ d <= Z.of_nat (length l))%Z ->
+             exists y, Permutation (x :: l) (y :: l') /\ forall z, In z (x :: l) -> less y z = false).
+  Proof.
+    intros d l x Hh. unfold pq_push.
+    destruct (h_push_spec l x Hh) as (l1 & Hp & Hh1 & P1). rewrite Hp. cbn [bind].
+    assert (L1 : length l1 = S (length l)) by (rewrite <- (Permutation_length P1); reflexivity).
+    destruct (negb (d =? -1)%Z && (d <? Z.of_nat (length l1))%Z) eqn:E.
+    - assert (Hne : l1 <> []) by (destruct l1; [discriminate|congruence]).
+      destruct (index_of_last_spec l1 Hh1 Hne) as [Hi Hmax].
+      destruct (h_remove_spec l1 (index_of_last less l1) Hh1 Hi) as (y & l' & Hr & Hy & Hh' & P').
+      rewrite Hr. cbn [bind snd]. exists l'. split; [reflexivity|]. split; [exact Hh'|]. split; [lia|].
+      intros _. exists y. split; [eapply Permutation_trans; eauto|].
+      intros z Hz. apply (Hmax y Hy). eapply Permutation_in; eauto.
+    - exists l1. split; [reflexivity|]. split; [exact Hh1|]. split; [auto|]. lia.
+  Qed.
 End HeapProofs.
 
 (** * The comparator chain is a strict total order *)
@@ -595,6 +683,16 @@ Section MapFacts.
     - now apply lookup_remove_neq.
   Qed.
 End MapFacts.
+
+Lemma nodup_map_inj : forall {X Y} (f : X -> Y) (l : list X) x y,
+    NoDup (map f l) -> In x l -> In y l -> f x = f y -> x = y.
+Proof.
+  intros X Y f l. induction l as [|z l IH]; intros x y Hnd Hx Hy Hf; [contradiction|].
+  cbn [map] in Hnd. inversion Hnd as [|? ? Hnin Hnd']; subst.
+  destruct Hx as [->|Hx], Hy as [->|Hy]; auto.
+  - exfalso. apply Hnin. rewrite Hf. now apply in_map.
+  - exfalso. apply Hnin. rewrite <- Hf. now apply in_map.
+Qed.
 
 Definition proj (n : node) : list job := if n_leaf n then n_jobs n else [].
 Definition same_leaves (st st' : jo) : Prop := forall q, leaf_items st' q = leaf_items st q.
@@ -919,12 +1017,47 @@ Section Within.
     - intros j st' Hp. destruct (push_job_contents _ _ _ Hinv Hp) as [H|(_ & P & Ho)]; auto.
   Qed.
 
-  (** * The decision-level statement, unlimited depth *)
+  (** PushJob for any depth: below the bound exactly the pushed job is added to
+      its leaf queue; at the bound a job that nothing in the leaf (the pushed job
+      included) is ordered after is dropped *)
+  Lemma push_job_contents_d : forall depth st j st',
+      leaf_inv st -> push_job qs qord depth st j = Ok st' ->
+      (st' = st /\ exists qi, lookup_q qs (j_queue j) = Some qi /\ qi_leaf qi = false)
+      \/ (leaf_inv st'
+          /\ (forall q', q' <> j_queue j -> leaf_items st' q' = leaf_items st q')
+          /\ ((depth = -1 \/ Z.of_nat (length (leaf_items st (j_queue j))) < depth) ->
+              Permutation (j :: leaf_items st (j_queue j)) (leaf_items st' (j_queue j)))
+          /\ ((depth <> -1 /\ depth <= Z.of_nat (length (leaf_items st (j_queue j)))) ->
+              exists y, Permutation (j :: leaf_items st (j_queue j)) (y :: leaf_items st' (j_queue j))
+                        /\ forall z, In z (j :: leaf_items st (j_queue j)) -> job_less y z = false)).
+  Proof.
+    intros depth st j st' Hinv H. apply push_job_leaf in H. destruct H as [H|[H Hother]]; [left; exact H|right].
+    destruct (Hinv (j_queue j)) as [Hh Hq].
+    destruct (pq_push_spec job_less job_less_strict_weak depth _ j Hh) as (l' & Hp & Hh' & Hno & Hov).
+    rewrite Hp in H. inversion H as [Hl]. rewrite <- Hl.
+    assert (HF : Forall (fun j0 => j_queue j0 = j_queue j) l').
+    { assert (F0 : Forall (fun j0 => j_queue j0 = j_queue j) (j :: leaf_items st (j_queue j))) by (constructor; auto).
+      destruct (Z.eq_dec depth (-1)) as [E|E];
+        [|destruct (Z.lt_ge_cases (Z.of_nat (length (leaf_items st (j_queue j)))) depth) as [E'|E']].
+      - eapply Permutation_Forall; [apply Hno; auto|exact F0].
+      - eapply Permutation_Forall; [apply Hno; auto|exact F0].
+      - destruct Hov as (y & P & _); [auto|].
+        assert (F1 : Forall (fun j0 => j_queue j0 = j_queue j) (y :: l')) by (eapply Permutation_Forall; eauto).
+        now inversion F1. }
+    split; [|split; [exact Hother|split; [exact Hno|exact Hov]]].
+    intros q. destruct (Z.eq_dec q (j_queue j)) as [->|Hne].
+    - rewrite <- Hl. split; auto.
+    - rewrite Hother by auto. apply Hinv.
+  Qed.
+
+  (** * The decision-level statement *)
   Section Decision.
     Context {C : Type}.
+    Variable depth : Z.
     Variable attempt : job -> C -> option (C * option job).
     Variable cle : C -> C -> Prop.
     Variables a b : job.
+    Hypothesis depth_ok : -1 <= depth.
     Hypothesis cle_refl : forall c, cle c c.
     Hypothesis cle_trans : forall c1 c2 c3, cle c1 c2 -> cle c2 c3 -> cle c1 c3.
     Hypothesis shrink : forall j c c' r, attempt j c = Some (c', r) -> cle c' c.
@@ -932,32 +1065,74 @@ Section Within.
     Hypothesis same_fit : forall c, fits attempt a c = fits attempt b c.
     Hypothesis same_queue : j_queue a = j_queue b.
     Hypothesis a_first : job_less a b = true.
+    (** the depth is unlimited, or the job pushed back is the job that was popped *)
+    Hypothesis repush_ok : depth = -1 \/ repush_same_job attempt.
 
-    Lemma push_keeps : forall st j st' x q,
-        leaf_inv st -> push_job qs qord (-1) st j = Ok st' ->
-        leaf_inv st' /\ (In x (leaf_items st q) -> In x (leaf_items st' q)).
+    (** no leaf queue holds more than [depth] jobs *)
+    Definition bounded (st : jo) : Prop :=
+      depth = -1 \/ forall q, Z.of_nat (length (leaf_items st q)) <= depth.
+    (** no queued job carries the UID of [b] *)
+    Definition nouid (st : jo) : Prop := forall q x, In x (leaf_items st q) -> j_uid x <> j_uid b.
+    (** [a] was dropped by a full leaf queue: the queue is full of jobs that [a] is
+        not ordered before *)
+    Definition dropped (st : jo) : Prop :=
+      Z.of_nat (length (leaf_items st (j_queue a))) = depth
+      /\ forall x, In x (leaf_items st (j_queue a)) -> job_less a x = false.
+    Definition kept_or_dropped (st : jo) : Prop := In a (leaf_items st (j_queue a)) \/ dropped st.
+
+    Lemma bounded_empty : bounded jo_empty.
+    Proof. unfold bounded. destruct (Z.eq_dec depth (-1)); [auto|right]. intros q. cbn. lia. Qed.
+
+    (** a push that does not overflow only adds the pushed job *)
+    Lemma push_no_overflow : forall st j st',
+        leaf_inv st -> bounded st -> push_job qs qord depth st j = Ok st' ->
+        (depth = -1 \/ Z.of_nat (length (leaf_items st (j_queue j))) < depth) ->
+        leaf_inv st' /\ bounded st'
+        /\ (forall q x, In x (leaf_items st q) -> In x (leaf_items st' q))
+        /\ (forall q x, In x (leaf_items st' q) -> x = j \/ In x (leaf_items st q)).
     Proof.
-      intros st j st' x q Hinv Hp.
-      destruct (push_job_contents _ _ _ Hinv Hp) as [[-> _]|(Hinv' & P & Ho)]; [auto|].
-      split; auto. intros Hin. destruct (Z.eq_dec q (j_queue j)) as [->|Hne].
-      - eapply Permutation_in; [exact P|]. now right.
-      - now rewrite Ho.
+      intros st j st' Hinv Hb Hp Hroom.
+      destruct (push_job_contents_d _ _ _ _ Hinv Hp) as [[-> _]|(Hinv' & Ho & Hno & _)]; [auto|].
+      specialize (Hno Hroom). split; [exact Hinv'|]. split; [|split].
+      - destruct Hb as [Hb|Hb]; [left; exact Hb|]. destruct Hroom as [Hr|Hr]; [left; exact Hr|right].
+        intros q. destruct (Z.eq_dec q (j_queue j)) as [->|Hne].
+        + rewrite <- (Permutation_length Hno). cbn [length]. lia.
+        + rewrite Ho by auto. apply Hb.
+      - intros q x Hx. destruct (Z.eq_dec q (j_queue j)) as [->|Hne].
+        + eapply Permutation_in; [exact Hno|]. now right.
+        + now rewrite Ho.
+      - intros q x Hx. destruct (Z.eq_dec q (j_queue j)) as [->|Hne].
+        + apply (Permutation_in _ (Permutation_sym Hno)) in Hx. destruct Hx; auto.
+        + right. now rewrite <- Ho.
     Qed.
 
     Lemma alloc_loop_inv : forall fuel st c log out,
-        leaf_inv st ->
-        alloc_loop qs qord (-1) attempt fuel st c log = Ok out ->
+        leaf_inv st -> bounded st ->
+        alloc_loop qs qord depth attempt fuel st c log = Ok out ->
         exists ext, out = log ++ ext
                     /\ (forall x, In (x, true) ext -> exists cx, cle cx c /\ fits attempt x cx = true)
-                    /\ (In a (leaf_items st (j_queue a)) -> In (b, true) ext -> In (a, true) ext).
+                    /\ (In a (leaf_items st (j_queue a)) -> In (b, true) ext -> In (a, true) ext)
+                    /\ (repush_same_job attempt -> nouid st -> ~ In (b, true) ext).
     Proof.
-      induction fuel as [|fuel IH]; intros st c log out Hinv H; [discriminate|].
+      induction fuel as [|fuel IH]; intros st c log out Hinv Hbd H; [discriminate|].
       cbn [alloc_loop] in H.
       destruct (is_empty st).
-      { inversion H; subst. exists []. rewrite app_nil_r. repeat split; auto; intros; contradiction. }
+      { inversion H; subst. exists []. rewrite app_nil_r. repeat split; auto; intros; try contradiction. }
       bind_inv H as r Er. destruct r as [oj st1]. cbn [fst snd] in H.
       destruct oj as [j|]; [|discriminate].
       destruct (pop_next_contents _ _ _ Hinv Er) as (Hinv1 & Hjin & Hmin & P & Ho).
+      (* the leaf that was popped has room for one more job *)
+      assert (Hroom : depth = -1 \/ Z.of_nat (length (leaf_items st1 (j_queue j))) < depth).
+      { destruct Hbd as [Hbd|Hbd]; [left; exact Hbd|right].
+        specialize (Hbd (j_queue j)). rewrite (Permutation_length P) in Hbd. cbn [length] in Hbd. lia. }
+      assert (Hbd1 : bounded st1).
+      { destruct Hbd as [Hbd|Hbd]; [left; exact Hbd|right]. intros q.
+        destruct (Z.eq_dec q (j_queue j)) as [->|Hne]; [|rewrite Ho by auto; apply Hbd].
+        specialize (Hbd (j_queue j)). rewrite (Permutation_length P) in Hbd. cbn [length] in Hbd. lia. }
+      assert (Hsub1 : forall q x, In x (leaf_items st1 q) -> In x (leaf_items st q)).
+      { intros q x Hx. destruct (Z.eq_dec q (j_queue j)) as [->|Hne].
+        - eapply Permutation_in; [apply Permutation_sym; exact P|]. now right.
+        - now rewrite <- Ho. }
       (* membership of [a] after the pop *)
       assert (Ha1 : In a (leaf_items st (j_queue a)) -> a = j \/ In a (leaf_items st1 (j_queue a))).
       { intros Hin. destruct (Z.eq_dec (j_queue a) (j_queue j)) as [Hq|Hq].
@@ -965,13 +1140,23 @@ Section Within.
         - right. now rewrite Ho. }
       destruct (attempt j c) as [[c' again]|] eqn:Eatt.
       - bind_inv H as st2 E2.
-        assert (H2 : leaf_inv st2 /\ (In a (leaf_items st1 (j_queue a)) -> In a (leaf_items st2 (j_queue a)))).
+        assert (H2 : leaf_inv st2 /\ bounded st2
+                     /\ (In a (leaf_items st1 (j_queue a)) -> In a (leaf_items st2 (j_queue a)))
+                     /\ (repush_same_job attempt -> nouid st -> nouid st2)).
         { destruct again as [j'|].
-          - eapply push_keeps; eauto.
-          - inversion E2; subst. auto. }
-        destruct H2 as [Hinv2 Hkeep].
-        destruct (IH _ _ _ _ Hinv2 H) as (ext & Hout & Hfit & Hab).
-        exists ((j, true) :: ext). split; [|split].
+          - assert (Hroom' : depth = -1 \/ Z.of_nat (length (leaf_items st1 (j_queue j'))) < depth).
+            { destruct repush_ok as [Hd|Hrp]; [left; exact Hd|].
+              destruct (Hrp _ _ _ _ Eatt) as [Hq _]. now rewrite Hq. }
+            destruct (push_no_overflow _ _ _ Hinv1 Hbd1 E2 Hroom') as (Hinv2 & Hbd2 & Hkeep & Hfrom).
+            split; [exact Hinv2|]. split; [exact Hbd2|]. split; [apply Hkeep|].
+            intros Hrp Hnu q x Hx. destruct (Hfrom q x Hx) as [->|Hx1].
+            + destruct (Hrp _ _ _ _ Eatt) as [_ Hu]. rewrite Hu. eapply Hnu; exact Hjin.
+            + eapply Hnu. eapply Hsub1; eauto.
+          - inversion E2; subst. split; [auto|]. split; [auto|]. split; [auto|].
+            intros _ Hnu q x Hx. eapply Hnu. eapply Hsub1; eauto. }
+        destruct H2 as (Hinv2 & Hbd2 & Hkeep & Hnu2).
+        destruct (IH _ _ _ _ Hinv2 Hbd2 H) as (ext & Hout & Hfit & Hab & Hnb).
+        exists ((j, true) :: ext). split; [|split; [|split]].
         + rewrite Hout. now rewrite <- app_assoc.
         + intros x [Hx|Hx].
           * inversion Hx; subst x. exists c. split; auto. unfold fits. now rewrite Eatt.
@@ -982,8 +1167,11 @@ Section Within.
             inversion Hb; subst j. rewrite <- same_queue in Hmin.
             rewrite (Hmin a Hain) in a_first. discriminate.
           * destruct (Ha1 Hain) as [->|Hin1]; [now left|]. right. auto.
-      - destruct (IH _ _ _ _ Hinv1 H) as (ext & Hout & Hfit & Hab).
-        exists ((j, false) :: ext). split; [|split].
+        + intros Hrp Hnu [Hb|Hb].
+          * inversion Hb; subst j. exact (Hnu _ _ Hjin eq_refl).
+          * exact (Hnb Hrp (Hnu2 Hrp Hnu) Hb).
+      - destruct (IH _ _ _ _ Hinv1 Hbd1 H) as (ext & Hout & Hfit & Hab & Hnb).
+        exists ((j, false) :: ext). split; [|split; [|split]].
         + rewrite Hout. now rewrite <- app_assoc.
         + intros x [Hx|Hx]; [discriminate|auto].
         + intros Hain [Hb|Hb]; [discriminate|].
@@ -992,141 +1180,138 @@ Section Within.
           subst j. destruct (Hfit b Hb) as (cb & Hle & Hf).
           rewrite <- same_fit in Hf. apply (mono_a c cb Hle) in Hf.
           unfold fits in Hf. rewrite Eatt in Hf. discriminate.
+        + intros Hrp Hnu [Hb|Hb]; [discriminate|].
+          apply (Hnb Hrp); auto. intros q x Hx. eapply Hnu. eapply Hsub1; eauto.
+    Qed.
+
+    (** one push of InitializeWithJobs: once [a] has been pushed it is either
+        still queued, or its leaf queue is full of jobs [a] is not ordered before *)
+    Lemma push_init_step : forall st j st',
+        leaf_inv st -> bounded st -> push_job qs qord depth st j = Ok st' ->
+        leaf_inv st' /\ bounded st'
+        /\ (forall q x, In x (leaf_items st' q) -> x = j \/ In x (leaf_items st q))
+        /\ (kept_or_dropped st -> kept_or_dropped st')
+        /\ (j = a -> queue_ok qs (j_queue a) = true -> kept_or_dropped st').
+    Proof.
+      intros st j st' Hinv Hbd Hp.
+      destruct (push_job_contents_d _ _ _ _ Hinv Hp) as [[-> (qi & Hl & Hnl)]|(Hinv' & Ho & Hno & Hov)].
+      { split; [exact Hinv|]. split; [exact Hbd|]. split; [intros q x Hx; now right|]. split; [auto|].
+        intros Hja Hok. subst j. unfold queue_ok in Hok. rewrite Hl in Hok. rewrite Hnl in Hok.
+        destruct (qi_parent qi); [destruct (lookup_q qs z)|]; discriminate. }
+      assert (Hcases : (depth = -1 \/ Z.of_nat (length (leaf_items st (j_queue j))) < depth)
+                       \/ (depth <> -1 /\ depth <= Z.of_nat (length (leaf_items st (j_queue j))))) by lia.
+      destruct Hcases as [Hroom|Hfullc].
+      { (* no overflow *)
+        destruct (push_no_overflow _ _ _ Hinv Hbd Hp Hroom) as (_ & Hbd' & Hkeep & Hfrom).
+        specialize (Hno Hroom).
+        split; [exact Hinv'|]. split; [exact Hbd'|]. split; [exact Hfrom|]. split.
+        - intros [Hin|[Hlen Hd]]; [left; apply Hkeep; exact Hin|].
+          destruct (Z.eq_dec (j_queue a) (j_queue j)) as [Hq|Hq].
+          + rewrite Hq in Hlen. lia.
+          + right. unfold dropped. rewrite (Ho _ Hq). auto.
+        - intros Hja _. subst j. left. eapply Permutation_in; [exact Hno|now left]. }
+      (* the leaf is full: one job is dropped *)
+      destruct (Hov Hfullc) as (y & P & Hmax).
+      assert (Hfull : Z.of_nat (length (leaf_items st (j_queue j))) = depth).
+      { destruct Hbd as [Hbd|Hbd]; [lia|]. specialize (Hbd (j_queue j)). lia. }
+      assert (Hlen' : length (leaf_items st' (j_queue j)) = length (leaf_items st (j_queue j))).
+      { pose proof (Permutation_length P) as L. cbn [length] in L. lia. }
+      assert (Hfrom : forall q x, In x (leaf_items st' q) -> x = j \/ In x (leaf_items st q)).
+      { intros q x Hx. destruct (Z.eq_dec q (j_queue j)) as [->|Hne].
+        - assert (Hx' : In x (j :: leaf_items st (j_queue j))).
+          { eapply Permutation_in; [apply Permutation_sym; exact P|]. now right. }
+          destruct Hx'; auto.
+        - right. now rewrite <- Ho. }
+      (* what happens to [a] when the push is into its own leaf *)
+      assert (Hown : j_queue j = j_queue a ->
+                     In a (j :: leaf_items st (j_queue a)) \/ dropped st -> kept_or_dropped st').
+      { intros Hq Hcase. rewrite Hq in *. destruct Hcase as [Hin|[Hlen Hd]].
+        - apply (Permutation_in _ P) in Hin. destruct Hin as [Hy|Hin]; [|left; exact Hin].
+          right. split; [lia|]. intros x Hx. rewrite <- Hy. apply Hmax.
+          eapply Permutation_in; [apply Permutation_sym; exact P|]. now right.
+        - right. split; [lia|]. intros x Hx.
+          assert (Hyin : In y (j :: leaf_items st (j_queue a))).
+          { eapply Permutation_in; [apply Permutation_sym; exact P|]. now left. }
+          assert (Hxin : In x (j :: leaf_items st (j_queue a))).
+          { eapply Permutation_in; [apply Permutation_sym; exact P|]. now right. }
+          destruct Hyin as [Hyj|Hyin].
+          + subst y. apply Permutation_cons_inv in P. apply Hd.
+            eapply Permutation_in; [apply Permutation_sym; exact P|exact Hx].
+          + eapply job_less_negtrans; [apply Hd; exact Hyin|apply Hmax; exact Hxin]. }
+      split; [exact Hinv'|]. split; [|split; [exact Hfrom|split]].
+      - destruct Hbd as [Hbd|Hbd]; [lia|right]. intros q.
+        destruct (Z.eq_dec q (j_queue j)) as [->|Hne]; [lia|rewrite Ho by auto; apply Hbd].
+      - intros Hkd. destruct (Z.eq_dec (j_queue j) (j_queue a)) as [Hq|Hq].
+        + apply Hown; auto. destruct Hkd; [left; now right|now right].
+        + destruct Hkd as [Hin|[Hlen Hd]].
+          * left. rewrite Ho by auto. exact Hin.
+          * right. unfold dropped. rewrite Ho by auto. auto.
+      - intros -> _. apply Hown; auto. left. now left.
     Qed.
 
     Lemma initialize_inv : forall jobs st st',
-        leaf_inv st -> initialize qs qord (-1) st jobs = Ok st' ->
-        leaf_inv st'
-        /\ (In a (leaf_items st (j_queue a)) -> In a (leaf_items st' (j_queue a)))
-        /\ (In a jobs -> queue_ok qs (j_queue a) = true -> In a (leaf_items st' (j_queue a))).
+        leaf_inv st -> bounded st -> initialize qs qord depth st jobs = Ok st' ->
+        leaf_inv st' /\ bounded st'
+        /\ (forall q x, In x (leaf_items st' q) -> In x jobs \/ In x (leaf_items st q))
+        /\ (kept_or_dropped st -> kept_or_dropped st')
+        /\ (In a jobs -> queue_ok qs (j_queue a) = true -> kept_or_dropped st').
     Proof.
-      induction jobs as [|j r IH]; intros st st' Hinv H; cbn [initialize] in H.
-      - inversion H; subst. split; [auto|split; [auto|intros []]].
+      induction jobs as [|j r IH]; intros st st' Hinv Hbd H; cbn [initialize] in H.
+      - inversion H; subst. split; [exact Hinv|]. split; [exact Hbd|]. split; [auto|]. split; [auto|]. intros [].
       - destruct (queue_ok qs (j_queue j)) eqn:Eq.
         + bind_inv H as st1 E1.
-          destruct (push_keeps _ _ _ a (j_queue a) Hinv E1) as [Hinv1 Hk].
-          destruct (IH _ _ Hinv1 H) as (Hinv' & Hk' & Hin').
-          split; auto. split; auto.
-          intros [->|Hin] Hok; auto.
-          apply Hk'. destruct (push_job_contents _ _ _ Hinv E1) as [[_ (qi & Hl & Hnl)]|(_ & P & _)].
-          * unfold queue_ok in Hok. rewrite Hl in Hok. rewrite Hnl in Hok.
-            destruct (qi_parent qi); [destruct (lookup_q qs z)|]; discriminate.
-          * eapply Permutation_in; [exact P|]. now left.
-        + destruct (IH _ _ Hinv H) as (Hinv' & Hk' & Hin').
-          split; auto. split; auto.
-          intros [->|Hin] Hok; auto. congruence.
+          destruct (push_init_step _ _ _ Hinv Hbd E1) as (Hinv1 & Hbd1 & Hfrom1 & Hkd1 & Ha1).
+          destruct (IH _ _ Hinv1 Hbd1 H) as (Hinv' & Hbd' & Hfrom' & Hkd' & Ha').
+          split; [exact Hinv'|]. split; [exact Hbd'|]. split; [|split].
+          * intros q x Hx. destruct (Hfrom' q x Hx) as [Hr|Hx1]; [left; now right|].
+            destruct (Hfrom1 q x Hx1) as [->|Hx0]; [left; now left|now right].
+          * auto.
+          * intros [->|Hin] Hok; auto.
+        + destruct (IH _ _ Hinv Hbd H) as (Hinv' & Hbd' & Hfrom' & Hkd' & Ha').
+          split; [exact Hinv'|]. split; [exact Hbd'|]. split; [|split]; auto.
+          * intros q x Hx. destruct (Hfrom' q x Hx); [left; now right|now right].
+          * intros [->|Hin] Hok; auto. congruence.
     Qed.
 
-    Lemma decision_unlimited : forall fuel jobs c0 out,
+    Lemma decision_general : forall fuel jobs c0 out,
+        (depth = -1 \/ (NoDup (map j_uid jobs) /\ In b jobs)) ->
         In a jobs -> queue_ok qs (j_queue a) = true ->
-        allocate qs qord (-1) attempt fuel jobs c0 = Ok out ->
+        allocate qs qord depth attempt fuel jobs c0 = Ok out ->
         In (b, true) out -> In (a, true) out.
     Proof.
-      intros fuel jobs c0 out Hin Hok H Hb. unfold allocate in H.
+      intros fuel jobs c0 out Hmode Hin Hok H Hb. unfold allocate in H.
       bind_inv H as st0 E0.
-      destruct (initialize_inv _ _ _ leaf_inv_empty E0) as (Hinv & _ & Ha).
-      destruct (alloc_loop_inv _ _ _ _ _ Hinv H) as (ext & Hout & _ & Hab).
-      cbn [app] in Hout. subst ext. auto.
+      destruct (initialize_inv _ _ _ leaf_inv_empty bounded_empty E0) as (Hinv & Hbd & Hfrom & _ & Hkd).
+      destruct (alloc_loop_inv _ _ _ _ _ Hinv Hbd H) as (ext & Hout & _ & Hab & Hnb).
+      cbn [app] in Hout. subst ext.
+      destruct (Hkd Hin Hok) as [Hkept|[Hlen Hd]]; [auto|].
+      exfalso.
+      destruct Hmode as [Hd1|[Hnd Hbin]]; [lia|].
+      destruct repush_ok as [Hd1|Hrp]; [lia|].
+      apply (Hnb Hrp); [|exact Hb].
+      (* no queued job has the UID of b: such a job would be b, which a full leaf of
+         jobs not after a cannot hold *)
+      intros q x Hx Hu.
+      assert (Hxj : In x jobs).
+      { destruct (Hfrom q x Hx) as [Hj|Hj]; [exact Hj|]. cbn in Hj. contradiction. }
+      assert (x = b) by (eapply nodup_map_inj; eauto). subst x.
+      destruct (Hinv q) as [_ Hq]. rewrite Forall_forall in Hq. pose proof (Hq _ Hx) as Hqb.
+      rewrite <- Hqb, <- same_queue in Hx.
+      rewrite (Hd _ Hx) in a_first. discriminate.
     Qed.
   End Decision.
 End Within.
 
-Theorem C16_decision_proof : C16_decision_stmt (-1).
+Theorem C16_decision_proof : forall depth, -1 <= depth -> C16_decision_stmt depth.
 Proof.
-  unfold C16_decision_stmt. intros. eapply decision_unlimited; eauto.
+  unfold C16_decision_stmt. intros depth Hd qs qord C attempt cle a b fuel jobs c0 out
+    H1 H2 H3 H4 H5 Hrp H6 H7 Hnd Ha Hb Hok Hrun Hpl.
+  eapply (decision_general qs qord depth attempt cle a b); eauto.
 Qed.
 
-(** * Finite queue depth *)
-(** PriorityQueue.Push with a finite size keeps a valid heap and drops exactly one
-    element on overflow — but which one is not constrained (it is the element at
-    slice index [maxsize]). *)
-Lemma pq_push_finite_spec : forall {A} (less : A -> A -> bool), strict_weak less ->
-    forall d l x, heap_ok less l -> 0 <= d ->
-    exists l', pq_push less d l x = Ok l' /\ heap_ok less l'
-               /\ (Z.of_nat (length l) < d -> Permutation (x :: l) l')
-               /\ (d <= Z.of_nat (length l) -> exists y, Permutation (x :: l) (y :: l')).
+Theorem C16_decision_any_repush_unlimited_proof : C16_decision_stmt_any_repush (-1).
 Proof.
-  intros A less SW d l x Hh Hd. unfold pq_push.
-  destruct (h_push_spec less SW l x Hh) as (l1 & Hp & Hh1 & P1). rewrite Hp. cbn [bind].
-  assert (L1 : length l1 = S (length l)) by (rewrite <- (Permutation_length P1); reflexivity).
-  destruct (d =? -1) eqn:E1; [lia|]. cbn [negb andb].
-  destruct (d <? Z.of_nat (length l1)) eqn:E2.
-  - destruct (d <? 0) eqn:E3; [lia|].
-    destruct (h_remove_spec less SW l1 (Z.to_nat d) Hh1) as (y & l' & Hr & _ & Hh' & P'); [lia|].
-    rewrite Hr. cbn [bind snd]. exists l'. repeat split; auto; [lia|].
-    intros _. exists y. eapply Permutation_trans; eauto.
-  - exists l1. repeat split; auto. lia.
-Qed.
-
-Definition mkjob (uid q prio ct : Z) : job :=
-  {| j_uid := uid; j_queue := q; j_prio := prio; j_subgroups := [(0, 1)]; j_ctime := ct; j_shape := 0 |}.
-
-(** witness: one leaf queue, depth 2, three identical-shape jobs arriving as
-    priority 3, priority 1, priority 2; everything fits. The priority-2 job is at
-    slice index 2 after its push and is removed; the priority-1 job is placed. *)
-Definition w_qs : list qinfo := [ {| qi_id := 1; qi_parent := None; qi_leaf := true |} ].
-Definition w_top : job := mkjob 1 1 3 0.
-Definition w_a : job := mkjob 2 1 2 0.
-Definition w_b : job := mkjob 3 1 1 0.
-Definition w_attempt (j : job) (c : unit) : option (unit * option job) := Some (tt, None).
-Definition w_qord (l r : Z) (lj rj : option job) : bool := true.
-
-Lemma finite_depth_witness :
-  allocate w_qs w_qord 2 w_attempt 10 [w_top; w_b; w_a] tt = Ok [(w_top, true); (w_b, true)].
-Proof. vm_compute. reflexivity. Qed.
-
-Lemma finite_depth_refuted_proof : ~ C16_decision_stmt 2.
-Proof.
-  intros H.
-  specialize (H w_qs w_qord unit w_attempt (fun _ _ => True) w_a w_b 10%nat [w_top; w_b; w_a] tt
-                [(w_top, true); (w_b, true)]).
-  assert (Hin : In (w_a, true) [(w_top, true); (w_b, true)]).
-  { apply H; [ auto | auto | auto | auto | reflexivity | reflexivity | vm_compute; reflexivity
-               | cbn; auto | vm_compute; reflexivity | exact finite_depth_witness | cbn; auto ]. }
-  cbn in Hin. destruct Hin as [Hx|[Hx|[]]]; discriminate Hx.
-Qed.
-
-(** the same at the level of the queue alone: the pops of the real structure differ
-    from those of a queue that keeps the two best elements *)
-Lemma pq_finite_drops_non_worst :
-  exists l, (l1 <- pq_push job_less 2 [] w_top ;; l2 <- pq_push job_less 2 l1 w_b ;; pq_push job_less 2 l2 w_a) = Ok l
-            /\ ~ In w_a l /\ In w_b l
-            /\ ideal_push job_less 2 (ideal_push job_less 2 (ideal_push job_less 2 [] w_top) w_b) w_a = [w_top; w_a].
-Proof.
-  exists [w_top; w_b]. split; [vm_compute; reflexivity|]. split; [|split].
-  - cbn. intros [Hx|[Hx|[]]]; discriminate Hx.
-  - cbn. auto.
-  - vm_compute. reflexivity.
-Qed.
-
-(** * Non-vacuity *)
-Definition ex_qs : list qinfo :=
-  [ {| qi_id := 1; qi_parent := None; qi_leaf := false |};
-    {| qi_id := 2; qi_parent := Some 1; qi_leaf := true |};
-    {| qi_id := 3; qi_parent := Some 1; qi_leaf := true |} ].
-Definition ex_qord (l r : Z) (lj rj : option job) : bool := l <? r.
-Definition ex_a : job := mkjob 1 2 2 5.
-Definition ex_b : job := mkjob 2 2 1 4.
-Definition ex_c : job := mkjob 3 3 9 1.
-Definition ex_attempt (j : job) (c : Z) : option (Z * option job) :=
-  if 1 <=? c then Some (c - 1, None) else None.
-
-Lemma nonvacuous_proof :
-  (forall c, Z.le c c)
-  /\ (forall j c c' r, ex_attempt j c = Some (c', r) -> c' <= c)
-  /\ (forall c c', c' <= c -> fits ex_attempt ex_a c' = true -> fits ex_attempt ex_a c = true)
-  /\ (forall c, fits ex_attempt ex_a c = fits ex_attempt ex_b c)
-  /\ j_queue ex_a = j_queue ex_b /\ job_less ex_a ex_b = true
-  /\ queue_ok ex_qs (j_queue ex_a) = true
-  /\ allocate ex_qs ex_qord (-1) ex_attempt 10 [ex_b; ex_c; ex_a] 3
-     = Ok [(ex_a, true); (ex_b, true); (ex_c, true)]
-  /\ allocate ex_qs ex_qord (-1) ex_attempt 10 [ex_b; ex_c; ex_a] 1
-     = Ok [(ex_a, true); (ex_b, false); (ex_c, false)].
-Proof.
-  split; [intros; lia|]. split.
-  { intros j c c' r. unfold ex_attempt. destruct (1 <=? c); [|discriminate]. intros H. inversion H. lia. }
-  split.
-  { intros c c' Hle. unfold fits, ex_attempt. destruct (Z.leb_spec 1 c'), (Z.leb_spec 1 c); auto. lia. }
-  split; [reflexivity|]. split; [reflexivity|]. split; [vm_compute; reflexivity|].
-  split; [vm_compute; reflexivity|]. split; vm_compute; reflexivity.
+  unfold C16_decision_stmt_any_repush. intros qs qord C attempt cle a b fuel jobs c0 out
+    H1 H2 H3 H4 H5 H6 H7 Ha Hok Hrun Hpl.
+  eapply (decision_general qs qord (-1) attempt cle a b); eauto. lia.
 Qed.
